@@ -419,13 +419,14 @@ def esc_semi(expr):
 # TAL templates
 # ----------------------------------------------------------------------------
 class GenOpts:
-    def __init__(self, maxdepth=4, structure=True, metal=True, py=None, text_keyword=True, nocall_repvar=True):
+    def __init__(self, maxdepth=4, structure=True, metal=True, py=None, text_keyword=True, nocall_repvar=True, only=None):
         self.maxdepth = maxdepth
         self.structure = structure
         self.metal = metal
         self.py = py
         self.text_keyword = text_keyword
         self.nocall_repvar = nocall_repvar
+        self.only = only          # restrict the TAL statements to this set (None = all six)
 
 
 def gen_text(rng):
@@ -528,7 +529,7 @@ def gen_element(rng, sc, opts, depth, in_macro=False, in_fill=False, allow_macro
         if rng.random() < 0.25:
             tal["omit-tag"] = rng.choice(["", "", gen_expr(rng, inner, None, 0, opts.py)])
     e.tal = {k: tal[k] for k in ("define", "condition", "repeat", "content", "replace", "attributes", "omit-tag")
-             if k in tal}
+             if k in tal and (opts.only is None or k in opts.only)}
     nattr = len(e.attrs) + len(e.tal) + len(e.metal)
     order = list(range(nattr))
     rng.shuffle(order)
